@@ -107,5 +107,5 @@ pub fn block<const N: usize>(state: &mut super::ChaChaState<N>, ws: &mut [[u32; 
 		_mm256_storeu_si256(ws.offset(7), w42);
 	}
 
-	state.set_counter(state.get_counter() + 4);
+	state.set_counter(state.get_counter().wrapping_add(4));
 }
